@@ -216,6 +216,10 @@ DEF_VIOLATIONS = {
     "type-parameter-name-invalid": ["Tp<t>: t\n"],
     "empty-record": ["Er: !record\n  fields: {}\n"],
     "empty-protocol": ["Ep: !protocol\n  sequence: {}\n"],
+    "computed-cast-between-unrelated-primitives": ["Cq: !record\n  fields:\n    s: string\n  computedFields:\n    c: s as date\n", "Cq: !record\n  fields:\n    b: bool\n  computedFields:\n    c: b as string\n",
+                                                   "Cq: !record\n  fields:\n    d: date\n  computedFields:\n    c: d as time\n", "Cq: !record\n  fields:\n    s: string\n  computedFields:\n    c: s as bool\n",
+                                                   "Cq: !record\n  fields:\n    t: datetime\n  computedFields:\n    c: (t as date) as int\n", "Cq: !record\n  fields:\n    s: string\n  computedFields:\n    c: s as int\n",
+                                                   "Cq: !record\n  fields:\n    i: int\n  computedFields:\n    c: i as string\n", "Cq: !record\n  fields:\n    v: int*\n  computedFields:\n    c: v as int\n"],
     "computed-unknown-field": ["Cq: !record\n  fields:\n    x: int\n  computedFields:\n    c: nope\n"],
     "computed-type-mismatch": ["Cq: !record\n  fields:\n    x: int\n    s: string\n  computedFields:\n    c: x + s\n",
                                "Cq: !record\n  fields:\n    s: string\n  computedFields:\n    c: -s\n",
